@@ -22,13 +22,13 @@ def setup() -> int:
     rc = 0
     # regenerate every Gen file from the current /repo first (each property module may define gen())
     for mod in sorted(Path(__file__).parent.glob("c[0-9][0-9].py")):
-        m = importlib.import_module(f"harness.{mod.stem}")
-        if hasattr(m, "gen"):
-            try:
+        try:
+            m = importlib.import_module(f"harness.{mod.stem}")
+            if hasattr(m, "gen"):
                 m.gen()
-            except Exception:  # noqa: BLE001
-                traceback.print_exc()
-                print(f"[setup] gen() of {mod.stem} failed (the check itself will report it)")
+        except Exception:  # noqa: BLE001
+            traceback.print_exc()
+            print(f"[setup] gen() of {mod.stem} failed (the check itself will report it)")
     for area in all_areas():
         t0 = time.time()
         r = common.coq_build(area, timeout_s=1800)
@@ -41,9 +41,12 @@ def setup() -> int:
 
 def regen() -> int:
     for mod in sorted(Path(__file__).parent.glob("c[0-9][0-9].py")):
-        m = importlib.import_module(f"harness.{mod.stem}")
-        if hasattr(m, "gen"):
-            m.gen()
+        try:
+            m = importlib.import_module(f"harness.{mod.stem}")
+            if hasattr(m, "gen"):
+                m.gen()
+        except Exception:  # noqa: BLE001
+            traceback.print_exc()
     return 0
 
 
